@@ -396,8 +396,43 @@ func (c *fctx) lookupVar(fr *frame, name string, at *ssa.BasicBlock, phiOverride
 			return fr.vals[phi], phi.Type(), true
 		}
 	}
-	for b := at.Idom(); b != nil; b = b.Idom() {
+	if fr.rfAt != nil {
+		// variables captured by the yield closure live in heap cells (ssa.Alloc with the variable's name):
+		// the cell, not the value it was initialised with, is the variable
+		for b := at; b != nil; b = b.Idom() {
+			for _, in := range b.Instrs {
+				if in == fr.rfAt {
+					break
+				}
+				if al, ok := in.(*ssa.Alloc); ok && al.Comment == name && al.Heap {
+					if v, ok := fr.vals[al]; ok {
+						if v.a != nil {
+							return v, al.Type(), true
+						}
+						return val{a: c.addrOfPointer(v, al.Type())}, al.Type().(*types.Pointer).Elem(), true
+					}
+				}
+			}
+		}
+	}
+	start := at.Idom()
+	if fr.rfAt != nil && fr.rfAt.Block() == at {
+		start = at // range-over-func site: the variables live in the block of the call, before it
+	}
+	for b := start; b != nil; b = b.Idom() {
 		for i := len(b.Instrs) - 1; i >= 0; i-- {
+			if b == at && fr.rfAt != nil {
+				// skip the call and everything after it
+				skip := false
+				for j := 0; j <= i; j++ {
+					if b.Instrs[j] == fr.rfAt {
+						skip = true
+					}
+				}
+				if skip {
+					continue
+				}
+			}
 			switch x := b.Instrs[i].(type) {
 			case *ssa.DebugRef:
 				if id, ok := x.Expr.(*ast.Ident); ok && id.Name == name {
